@@ -13,8 +13,17 @@ from . import verus as V
 VERIF = R.VERIF
 
 
-def attribute(f, fn_props, prop):
+C11_CARRIERS = {'C03', 'C10', 'C20', 'C17', 'C11'}   # clauses that fix observable results / state
+
+
+def attribute(f, fn_props, prop, shared=()):
     """Does failure f count against property prop?"""
+    if prop == 'C11':
+        # C11 = both flavours satisfy the same (functional) contract: any failing observable clause of a
+        # function under a shared contract file breaks it
+        if f['function'] not in shared:
+            return False
+        return (not f['labels']) or bool(set(f['labels']) & C11_CARRIERS)
     if f['labels']:
         return prop in f['labels']
     props = fn_props.get(f['function'], None)
@@ -93,7 +102,13 @@ def run_property(prop, pc, kf, tier, seed, sc, t0):
             if not f['semantic']:
                 tool_problems.append('%s: %s in %s: %s' % (bv['unit'], f['kind'], f['function'], f['site']))
         sem = [f for f in bv['failures'] if f['semantic']]
-        mine = [f for f in sem if attribute(f, fn_props, prop)]
+        shared = {m['function'] for m in bv['metas'] if m.get('contract_file')}
+        if prop == 'C11':
+            for m in bv['metas']:
+                if m.get('contract_file') and 'C11' not in m['props']:
+                    m['props'].append('C11')
+            fn_props = {m['function']: m['props'] for m in bv['metas']}
+        mine = [f for f in sem if attribute(f, fn_props, prop, shared)]
         for m in bv['metas']:
             if prop in m['props']:
                 functions_under_contract.append({k: m[k] for k in ('function', 'file', 'first_line', 'last_line', 'sha256_16', 'profile', 'rules')})
@@ -120,6 +135,8 @@ def run_property(prop, pc, kf, tier, seed, sc, t0):
                 known_hits.append((e, f))
             else:
                 violations.append(f)
+    if prop == 'C11':
+        tool_problems += c11_shared_contracts(results)
     if tool_problems:
         for t in tool_problems:
             print('TOOL-LIMIT property=%s %s' % (prop, t))
@@ -151,6 +168,23 @@ def run_property(prop, pc, kf, tier, seed, sc, t0):
     print('property=%s tier=%s obligations=%d discharged=%d known-findings=%d violations=%d wall=%.1fs' % (
         prop, tier, n_ob, n_dis, len(known_hits), len(violations), time.time() - t0))
     return rc
+
+
+def c11_shared_contracts(results):
+    """every function under a shared contract must exist in both flavour units with the same contract file"""
+    per = {}
+    for bv in results:
+        if bv['unit'] not in ('U_unsync', 'U_sync'):
+            continue
+        per[bv['unit']] = {m['function']: m.get('contract_file') for m in bv['metas'] if m.get('contract_file')}
+    if len(per) != 2:
+        return ['C11 needs both U_unsync and U_sync']
+    a, b = per['U_unsync'], per['U_sync']
+    probs = []
+    for fn in sorted(set(a) | set(b)):
+        if a.get(fn) != b.get(fn):
+            probs.append('C11: %s is under contract %s in U_unsync but %s in U_sync' % (fn, a.get(fn), b.get(fn)))
+    return probs
 
 
 def scan_assumptions():
